@@ -81,11 +81,41 @@ let dump_tree (tr : tree) (buf : Buffer.t) =
   | Some root -> walk_layer root "-" []
   | None -> ()
 
+let aval_s (v : aval) len_of =
+  if v.av_inline then "w" ^ word_of_bytes v.av_bytes else hex_of_bytes v.av_bytes
+
+(* the abstract (spec-level) line of an op result *)
+let spec_line (name : string) (a : aout) : string =
+  match a with
+  | AStatus s -> name ^ " " ^ status_s s
+  | APut s -> name ^ " " ^ status_s s
+  | AGet (s, Some v) ->
+    if v.av_inline then Printf.sprintf "get OK w=%s len=8" (word_of_bytes v.av_bytes)
+    else Printf.sprintf "get OK v=%s len=%d al=1" (hex_of_bytes v.av_bytes) (List.length v.av_bytes)
+  | AGet (s, None) -> "get " ^ status_s s
+  | ARemove s -> "rem " ^ status_s s
+  | AScan (s, ts) ->
+    Printf.sprintf "scan %s n=%d t=[%s ]" (status_s s) (List.length ts)
+      (String.concat "" (List.map (fun (k, v) ->
+           Printf.sprintf " %s:%s:%d" (hex_of_bytes k) (aval_s v ()) (if v.av_inline then 8 else List.length v.av_bytes)) ts))
+  | AList (s, names) ->
+    "list " ^ status_s s ^ " [" ^ String.concat "" (List.map (fun k -> " " ^ hex_of_bytes k) names) ^ " ]"
+  | AStuck -> name ^ " STUCK"
+
 let () =
   let lines = read_lines Sys.argv.(1) in
   let st = ref sys_init in
-  let run o = let (s', r) = exec !st o in st := s'; r in
+  let sp = ref spec_init in
+  let cur = ref "" in
+  let run o =
+    let (s', r) = exec !st o in st := s';
+    let (p', a) = spec_exec !sp o in sp := p';
+    print_endline ("S " ^ spec_line !cur a);
+    r in
+  let print_endline s = print_endline ("M " ^ s) in
+  let printf_m fmt = Printf.ksprintf print_endline fmt in
   List.iter (fun line ->
+      (match split_ws line with t :: _ -> cur := t | [] -> ());
       match split_ws line with
       | [] -> ()
       | t :: _ when t.[0] = '#' -> ()
@@ -116,7 +146,7 @@ let () =
          | RPut po ->
            (match po.po_status, po.po_info with
             | St_OK, Some info ->
-              Printf.printf "put OK mod=%s cre=%s cvp=1\n" (id_s info.pi_modified)
+              printf_m "put OK mod=%s cre=%s cvp=1" (id_s info.pi_modified)
                 (match info.pi_created with Some c -> id_s c | None -> "-")
             | St_OK, None -> print_endline "put OK mod=- cre=- cvp=1"
             | s, _ -> print_endline ("put " ^ status_s s))
@@ -127,9 +157,9 @@ let () =
          | RGet g ->
            (match g.go_status, g.go_value, g.go_checked with
             | St_OK, Some v, _ ->
-              if v.v_inline then Printf.printf "get OK w=%s len=8\n" (word_of_bytes v.v_bytes)
-              else Printf.printf "get OK v=%s len=%d al=1\n" (hex_of_bytes v.v_bytes) (List.length v.v_bytes)
-            | s, _, Some (id, ver) -> Printf.printf "get %s nv=%s:%s\n" (status_s s) (id_s id) (hex_of_n ver)
+              if v.v_inline then printf_m "get OK w=%s len=8" (word_of_bytes v.v_bytes)
+              else printf_m "get OK v=%s len=%d al=1" (hex_of_bytes v.v_bytes) (List.length v.v_bytes)
+            | s, _, Some (id, ver) -> printf_m "get %s nv=%s:%s" (status_s s) (id_s id) (hex_of_n ver)
             | s, _, None -> print_endline ("get " ^ status_s s))
          | RStatus s -> print_endline ("get " ^ status_s s)
          | _ -> print_endline "get STUCK")
@@ -144,11 +174,11 @@ let () =
                   sa_max = nat_of_int (int_of_string mx); sa_rtl = (rtl = "1"); sa_lnull = ln; sa_rnull = rn } in
         (match run (OScan (bytes_of_hex s, a)) with
          | RScan so ->
-           Printf.printf "scan %s n=%d t=[%s ] nv=[%s ]\n" (status_s so.so_status) (List.length so.so_tuples)
+           printf_m "scan %s n=%d t=[%s ] nv=[%s ]" (status_s so.so_status) (List.length so.so_tuples)
              (String.concat "" (List.map (fun (k, v) ->
                   Printf.sprintf " %s:%s:%d" (hex_of_bytes k) (value_s v) (if v.v_inline then 8 else List.length v.v_bytes)) so.so_tuples))
              (String.concat "" (List.map (fun (id, ver) -> " " ^ id_s id ^ ":" ^ hex_of_n ver) so.so_nv))
-         | RStatus s -> Printf.printf "scan %s n=0 t=[ ] nv=[ ]\n" (status_s s)
+         | RStatus s -> printf_m "scan %s n=0 t=[ ] nv=[ ]" (status_s s)
          | _ -> print_endline "scan STUCK")
       | "dump" :: s :: _ ->
         (match find_storage !st (bytes_of_hex s) with
